@@ -128,15 +128,20 @@ def _who(raw, all_values, own):
     return "wrong-answer"
 
 
-def stale_site(rr, u, spec, raw):
+def stale_site(rr, u, spec, raw, occurrence=0):
     """For the serial gateways: had the foreign value already reached the host
     when the victim's command was written (a flush at that moment would have
     removed it), or did it arrive afterwards (matching by arrival order only)?"""
     arr = getattr(rr.dev, "answer_arrivals", {}).get(raw.as_integer)
     t_write = None
+    k = 0
     for s_ in rr.dev.sends:
         if s_["unit"] == u and (s_.get("bits"), s_.get("value")) == (spec[0], spec[1]):
-            t_write = s_["t_us"]
+            # the same frame may occur several times in one unit: take the
+            # write that belongs to this very command
+            if k <= occurrence:
+                t_write = s_["t_us"]
+            k += 1
     if arr is None or t_write is None:
         return "unattributed"
     return "stale-before-write" if arr < t_write else "arrived-after-write"
@@ -174,8 +179,8 @@ def judge(rr):
             all_values.add(t["answer"][1])
     late_by = {}
     for s in rr.dev.sends:
-        if s.get("late"):
-            late_by[(s["unit"], s.get("bits"), s.get("value"))] = True
+        if "outcome" in s:
+            late_by.setdefault((s["unit"], s.get("bits"), s.get("value")), []).append(bool(s.get("late")))
     for u, rec in rr.ops.items():
         specs = drvsim.op_cmd_specs(rec.op)
         if rec.status == "raised":
@@ -187,11 +192,15 @@ def judge(rr):
             results = [rec.result] if rec.status == "ok" else []
         else:
             results = list(rec.responses)
+        seen = {}
         for spec, result in zip(specs, results):
             cmd = cmds.mk_cmd(spec)
             o = rec.op.get("outs", {}).get("%d:%d" % (spec[0], spec[1]))
-            late = late_by.get((u, spec[0], spec[1]), False)
-            when = (lambda raw, u=u, spec=spec: stale_site(rr, u, spec, raw)) if serial else None
+            occ = seen.get((spec[0], spec[1]), 0)
+            seen[(spec[0], spec[1])] = occ + 1
+            lates = late_by.get((u, spec[0], spec[1]), [])
+            late = lates[occ] if occ < len(lates) else (lates[-1] if lates else False)
+            when = (lambda raw, u=u, spec=spec, occ=occ: stale_site(rr, u, spec, raw, occ)) if serial else None
             judge_response(V, drv, u, cmd, o, result, late, all_values, serial, when=when)
     return out
 
